@@ -132,10 +132,13 @@ VAL0 = z3.Const("val_zero", Val)  # the float 0.0 as an opaque payload
 VAL1 = z3.Const("val_one", Val)
 VALNAN = z3.Const("val_nan", Val)
 isnan = z3.Function("isnan", Val, Bool)
+isfinite = z3.Function("isfinite", Val, Bool)  # neither NaN nor +-inf
 
 
 def val_axioms():
-    return [z3.Distinct(VAL0, VAL1, VALNAN), isnan(VALNAN), z3.Not(isnan(VAL0)), z3.Not(isnan(VAL1))]
+    x = z3.Const("x!fin", Val)
+    return [z3.Distinct(VAL0, VAL1, VALNAN), isnan(VALNAN), z3.Not(isnan(VAL0)), z3.Not(isnan(VAL1)), isfinite(VAL0), isfinite(VAL1),
+            z3.ForAll([x], z3.Implies(isfinite(x), z3.Not(isnan(x))), patterns=[isfinite(x)])]
 
 
 def const_of(dtype_sort, v):
